@@ -21,7 +21,7 @@ GROUPS = {
     "K1": {
         "what": "range::parse on the real `str` code (split / find / trim_start_matches / slicing), u64::from_str stubbed so every number "
                 "is an unconstrained u64 or unparseable; oracle = RFC 7233 resolver written from C03",
-        "harnesses": {"k1_closed": "bytes=1-2", "k1_from": "bytes=1-", "k1_suffix": "bytes=-1", "k1_other_unit": "items=1-2 / bytes=12"},
+        "harnesses": {"k1_closed": "bytes=1-2", "k1_from": "bytes=1-", "k1_suffix": "bytes=-1", "k1_other_unit": "items=1-2 / bytes=12", "k1_signed_positions": "bytes=+1-2 / bytes=1-+2 / bytes=-+2"},
         "thorough": {"k1_two_ows": "bytes=1-2, \\t-3", "k1_leading_ows": "bytes= \\t1-2", "k1_two_from": "bytes=1-,2-3"},
         "tags": ["C03", "C02", "C13"],
         "bound": "complete in all numbers and the entity length for each header template; bounded to the listed template shapes (1 spec; 2 specs with OWS in the thorough tier)",
